@@ -273,6 +273,7 @@ def run(ctx):
     d9_acc_index(db, rep)
     d10_temp_reg_distinct(db, rep)
     d11_exec_only_if_executable(db, rep)
+    d12_gp_alloc_checked(db, rep)
     # D8: the executor a generated wrapper hands to a detached code object carries n and (for 2-D) m: emulation, the fallback
     # of every wrapper, reads them from there (shared with C07 D1)
     import importlib as _il
@@ -513,3 +514,54 @@ def fc_line(f, a, b):
             return True
         st.extend(s_ for s_ in f.blocks[x].succs if s_ is not None)
     return False
+
+
+def d12_gp_alloc_checked(db, rep, rule="D12-GP-ALLOC-CHECKED"):
+    """D12: "register exhaustion ... still produces exactly the emulation results".  orc_compiler_allocate_register reports a
+    failed VECTOR allocation itself, but returns 0 silently for a general register when the target allows pointers to stay in
+    the executor (allow_gp_on_stack).  Only array pointers have that fallback - the rules test `ptr_register == 0`.  Every
+    other field that receives the result of a general-register allocation is used as a register operand, so the 0 must be
+    turned into a compile error where it is stored; otherwise the compile succeeds and the code uses register 0."""
+    n = 0
+    for f in db.tu("orccompiler").main_functions():
+        fc = None
+        for x in f.walk():
+            if x.k != "BinaryOperator" or x.op != "=":
+                continue
+            r = strip_casts(x.c[1])
+            if r is None or r.k != "CallExpr" or r.name != "orc_compiler_allocate_register" or len(r.args()) < 2 or strip_casts(r.args()[1]).v != 0:
+                continue
+            lp = access_path(x.c[0]) or unparse(x.c[0])
+            fld = lp.split("->")[-1].split(".")[-1]
+            n += 1
+            rep.saw(f)
+            if fld == "ptr_register":
+                rep.ok(rule, where(f), "%s@%s" % (lp, x.line), "array pointer: the rules fall back to the executor's copy when it is 0")
+                continue
+            # an error raised under `field == 0` somewhere after the store
+            fc = fc or Facts(f)
+            handled = False
+            for c in f.calls():
+                if c.name in ("orc_compiler_error",) and c.line >= x.line:
+                    conds = fc.conds(c)
+                    if any(cc[0] != "switch" and access_path(strip_casts(cc[0])) == lp and cc[1] is False for cc in conds):
+                        handled = True
+            # ... or the zero value is an explicit state of the field that this function itself distinguishes (loop_counter ==
+            # ORC_REG_INVALID: the x86 skeleton then counts in memory)
+            from flow import atom
+            for blk in f.blocks.values():
+                if blk.cond is not None and blk.cond.line >= x.line:
+                    cn, _ = atom(blk.cond, True)
+                    if cn is not None and access_path(cn) == lp:
+                        handled = True
+                    if cn is not None and cn.k == "BinaryOperator" and cn.op in ("==", "!=") and access_path(strip_casts(cn.c[0])) == lp and strip_casts(cn.c[1]).v == 0:
+                        handled = True
+            guarded_mode = any(cc[0] != "switch" and (access_path(strip_casts(cc[0])) or "").endswith("allow_gp_on_stack") and cc[1] is False for cc in fc.conds(x))
+            rep.check(handled or guarded_mode, rule, where(f), "%s@%s" % (lp, x.line),
+                      "a failed allocation of `%s` becomes a compile error" % lp,
+                      "%s stores the result of a general-register allocation in `%s` without turning 0 (no register left, allow_gp_on_stack) into a compile "
+                      "error: the rules use that field as a register operand, the compile reports success and the generated code operates on register 0 "
+                      "(rax, which holds another pointer) instead of falling back to emulation" % (f.name, lp), line=x.line)
+    if n < 3:
+        raise AnalysisBroken("only %d general-register allocations found in orccompiler.c" % n)
+    return n
